@@ -527,3 +527,36 @@ Example str_slice_examples :
   str_slice (of_codes [48; 195; 169; 48]) 0 2 = Panic /\ str_slice (of_codes [48; 195; 169; 48]) 1 3 = Ok (of_codes [195; 169]) /\
   str_slice (of_codes [240; 159; 146; 150]) 0 3 = Panic /\ str_slice "" 0 0 = Ok ""%string.
 Proof. vm_compute. repeat split; reflexivity. Qed.
+
+(* ------------------------------------------------------------------ registry file: save then load *)
+Lemma saves_last init texts t : saves init (texts ++ [t]) = Text t.
+Proof. unfold saves. rewrite fold_left_app. reflexivity. Qed.
+
+(* whatever was on the path before and however often it was saved: loading after a save returns what was
+   saved last (premise: serde_json reads back what it printed; the printed text is never empty) *)
+Lemma registry_save_load_lemma {A} (fmt : A -> string) (parse : string -> option A) init earlier r :
+  parse (fmt r) = Some r -> fmt r <> EmptyString ->
+  registry_load parse (saves init (map fmt earlier ++ [fmt r])) = Ok (RParsed r).
+Proof.
+  intros P NE. rewrite saves_last. cbn [registry_load].
+  destruct (fmt r) eqn:E; [congruence|]. rewrite P. reflexivity.
+Qed.
+
+(* a write that does not truncate leaves the tail of the longer old content: the parser sees trailing
+   characters (modelled by a parser that accepts exactly the two printed texts) *)
+Lemma write_without_truncate_refuted_lemma :
+  exists (parse : string -> option nat) old new_,
+    parse old = Some 1%nat /\ parse new_ = Some 2%nat /\
+    registry_load parse (file_write (Text old) new_) = Ok (RParsed 2%nat) /\
+    registry_load parse (file_write_no_truncate (Text old) new_) = Err 2.
+Proof.
+  exists (fun s => if String.eqb s "{""nodes"":[1,2,3]}" then Some 1%nat
+                   else if String.eqb s "{""nodes"":[]}" then Some 2%nat else None),
+    "{""nodes"":[1,2,3]}"%string, "{""nodes"":[]}"%string.
+  repeat split; vm_compute; reflexivity.
+Qed.
+
+Example saves_example :
+  saves Absent ["long text"; "x"]%string = Text "x" /\ saves (Text "old") ["a"; "bb"; "c"]%string = Text "c" /\
+  file_write_no_truncate (Text "long text") "x" = Text "xong text".
+Proof. vm_compute. repeat split; reflexivity. Qed.
